@@ -90,3 +90,69 @@ def identity_from():
     """`From::from` used as the residue conversion `R: From<T>`: tag the payload so that rules can
     see that the entry itself was carried over."""
     return PyFn(lambda I, a: a[0], "From::from")
+
+
+# ---------------------------------------------------------------------------------------------------
+# walkdir model and WalkTree values
+
+INF = 10 ** 9
+WD = "walkdir-model"
+
+
+def walkdir_stubs(on_next=None):
+    """walkdir's builder with its documented clamping (min_depth / max_depth never cross).  `on_next(I, iterator
+    fields)` gives the item of IntoIter::next (default: end of the walk)."""
+    def setter(field):
+        def st(I, a, fn, e):
+            b = strip(a[0])
+            v = strip(a[1])
+            if not (isinstance(b, Adt) and b.path == WD) or not isinstance(v, (int, bool)):
+                return I.top("walkdir builder call with unanalysable arguments %r %r" % (b, v))
+            f = dict(b.fields)
+            f[field] = v
+            if field == "min" and f["min"] > f["max"]:
+                f["min"] = f["max"]
+            if field == "max" and f["max"] < f["min"]:
+                f["max"] = f["min"]
+            return Adt(WD, b.variant, f)
+        return st
+
+    def into_iter(I, a, fn, e):
+        b = strip(a[0])
+        if isinstance(b, Adt) and b.path == WD:
+            return Adt(WD, "IntoIter", dict(b.fields))
+        return I.top("into_iter of %r" % (b,))
+
+    def nxt(I, a, fn, e):
+        b = strip(a[0])
+        if isinstance(b, Adt) and b.path == WD and b.variant == "IntoIter":
+            I.emit("walkdir.next", b.fields["min"], b.fields["max"], b.fields["follow"])
+            return on_next(I, b.fields) if on_next else none()
+        return I.top("next of %r" % (b,))
+    return {
+        "walkdir::WalkDir::new": lambda I, a, fn, e: Adt(WD, "WalkDir", {"min": 0, "max": INF, "follow": False}),
+        "walkdir::WalkDir::follow_links": setter("follow"),
+        "walkdir::WalkDir::min_depth": setter("min"),
+        "walkdir::WalkDir::max_depth": setter("max"),
+        "<walkdir::WalkDir as std::iter::IntoIterator>::into_iter": into_iter,
+        "std::iter::IntoIterator::into_iter": into_iter,
+        "<walkdir::IntoIter as std::iter::Iterator>::next": nxt,
+        "std::iter::Iterator::next": nxt,
+        "std::path::PathBuf::as_path": lambda I, a, fn, e: strip(a[0]),
+    }
+
+
+def walk_tree(F, I, is_dir=None, depth=None, link="ReadFile", pivot=0):
+    """A WalkTree value as the library's own constructor builds it (so that rules do not depend on how the struct
+    stores its walkdir iterator); `is_dir` then overrides the flag.  The interpreter must have walkdir_stubs()."""
+    ctor = F.find("walk::WalkTree::with_pivot_and_behavior")
+    beh = Adt("walk::behavior::WalkBehavior", "WalkBehavior", {
+        "link": Adt("walk::behavior::LinkBehavior", link, {}),
+        "depth": depth if depth is not None else Adt("walk::behavior::DepthBehavior", "Unbounded", {})})
+    tree = I.call_item(ctor, [Sym("root"), pivot, beh], inst=False)
+    t = strip(tree)
+    if is_dir is not None and isinstance(t, Adt):
+        if "is_dir" not in t.fields:
+            raise AnchorMissing("the is_dir flag of WalkTree")
+        t.fields["is_dir"] = is_dir
+    return tree
